@@ -10,7 +10,8 @@ def load_matrix(*paths):
             w = l.split('::')[0].split()
             if len(w) >= 3 and w[0].startswith('C'): m[(w[0], w[1])] = ' '.join(w[2:]) + ((' -- first reports: ' + l.split('::', 1)[1].strip()[:300]) if '::' in l else '')
     return m
-for batch, root, mat in (('b1', '/tmp/mut/out', ('/tmp/mut/matrix.log', '/tmp/mut/matrix_rerun.log')), ('b2', '/tmp/mut2/out', ('/tmp/mut2/matrix.log', '/tmp/mut2/matrix_rerun.log'))):
+rows = []
+for batch, root, mat in (('b1', '/tmp/mut/out', ('/tmp/mut/matrix.log', '/tmp/mut/matrix_rerun.log', '/tmp/mut/matrix_full.log')), ('b2', '/tmp/mut2/out', ('/tmp/mut2/matrix.log', '/tmp/mut2/matrix_rerun.log', '/tmp/mut2/matrix_full.log')), ('b3', '/tmp/mut3/out', ('/tmp/mut3/matrix.log', '/tmp/mut3/matrix_rerun.log'))):
     matrix = load_matrix(*mat)
     if not os.path.isdir(root): continue
     for pid in sorted(os.listdir(root)):
@@ -41,4 +42,13 @@ for batch, root, mat in (('b1', '/tmp/mut/out', ('/tmp/mut/matrix.log', '/tmp/mu
                         detected=matrix.get((pid, m), 'not run'),
                         check_cmd='VERIF_REPO=<tree with the patch> tools/check %s --tier quick' % pid)
             json.dump(meta, open(os.path.join(out, 'meta.json'), 'w'), indent=1)
-            print(out, meta['detected'])
+            title = next((l.strip('# ').strip() for l in readme.split('\n') if l.startswith('#')), '')[:160]
+            files = sorted(set(re.findall(r'^\+\+\+ b/(\S+)', open(os.path.join(out, 'patch.diff')).read(), flags=re.M)))
+            rows.append((pid, batch, m, title, ', '.join(files), meta['detected']))
+            print(out, meta['detected'][:80])
+with open(os.path.join(V, 'seeded', 'INDEX.md'), 'w') as f:
+    f.write('# Seeded changes (written by fresh sub-agents from the property text only; each confirmed by tools/verify_seeded.sh)\n\n')
+    f.write('Detection = `VERIF_REPO=<scratch worktree with the patch> tools/check <id> --tier quick`: number of VIOLATION lines with a concrete failing input / number that only name a broken proof or correspondence (`nofail`), then the first reports.\n\n')
+    f.write('| seeded change | files | title | detection by the property\'s own check |\n|---|---|---|---|\n')
+    for pid, batch, m, title, files, det in rows:
+        f.write('| %s-%s-%s | %s | %s | %s |\n' % (pid, batch, m, files, title.replace('|', '/'), det.replace('|', ' / ')[:330]))
